@@ -31,6 +31,7 @@ type TaskGroup struct {
 	Task int64
 	Atts []*Attempt
 	From int
+	Act  int64 // index of the action that was running
 }
 
 // Choice is one reconstructed oracle choice (C04.Model.choice).
@@ -82,7 +83,7 @@ func (w *World) Reconstruct() []Choice {
 		switch e.Kind {
 		case 10:
 			closeGroup()
-			cur = &TaskGroup{Task: e.Task, From: i}
+			cur = &TaskGroup{Task: e.Task, From: i, Act: e.Action}
 		case 11:
 			closeAtt()
 			if cur == nil || cur.Task != e.Task {
@@ -113,11 +114,13 @@ func (w *World) Reconstruct() []Choice {
 		case 13:
 			closeGroup()
 			k := len(pending)
-			for k > 0 && w.jobOfTask(pending[k-1].Task) == e.Task {
+			for k > 0 && w.jobOfTask(pending[k-1].Task) == e.Task && pending[k-1].Act == e.Action {
 				k--
 			}
-			if act == 2 && k != 0 {
-				panic("reclaim: task groups of another job before JobPipelined")
+			for _, g := range pending[:k] {
+				if act == 2 && g.Act == e.Action {
+					panic("reclaim: task groups of another job before JobPipelined")
+				}
 			}
 			intra(pending[:k])
 			mine := pending[k:]
